@@ -21,6 +21,7 @@
 
 #include <sys/time.h>
 #include <cstring>
+#include <cinttypes>
 
 #include <tbox/base/log.h>
 #include <tbox/base/assert.h>
@@ -198,10 +199,11 @@ bool Alarm::activeTimer() {
 
   auto remain_sec = next_utc_sec - curr_utc_sec;
   //! 提升精度，计算中需要等待的毫秒数
-  auto remain_usec = (remain_sec * 1000) - (curr_utc_usec / 1000);
+  //! 注意：必须用64位计算，否则超过49.7天(2^32毫秒)就会溢出
+  auto remain_usec = (static_cast<uint64_t>(remain_sec) * 1000) - (curr_utc_usec / 1000);
 
 #if 1
-  LogTrace("next_utc_sec:%u, remain_sec:%u, remain_usec:%u", next_utc_sec, remain_sec, remain_usec);
+  LogTrace("next_utc_sec:%u, remain_sec:%u, remain_usec:%" PRIu64, next_utc_sec, remain_sec, remain_usec);
 #endif
 
   //! 启动定时器
